@@ -492,7 +492,7 @@ def fam_life(tier, outdir):
     if tier == "thorough":
         consts.update({"MaxCalls": 5, "Depth": '"full"', "MaxTime": 2})   # (6 calls: > 10 M states with the interrupt / descendant actions, does not finish in an hour)
     cfg = os.path.join(outdir, "MC_Life.cfg")
-    write_cfg(cfg, "Spec", consts, ["TypeOK", "LifeChild", "Conservation"], props=["LifeOrder"], export_stride=3 if tier == "quick" else 1)
+    write_cfg(cfg, "Spec", consts, ["TypeOK", "LifeChild", "Conservation"], props=["LifeOrder"], export_stride=4 if tier == "quick" else 1)
     res = run_tlc_export("life", "MC_Life", cfg, outdir, tier, asan_stride=4 if tier == "quick" else 16)
     sc = dict(consts); sc.update({"MaxTime": 4, "MaxCalls": 14, "MaxOut": 8, "Depth": '"full"'})
     return sim_pass(res, "life", "MC_Life", sc, ["TypeOK", "LifeChild", "Conservation"], outdir, tier, 500 if tier == "quick" else 30000, 80, stride=20, asan_stride=4)
@@ -552,7 +552,7 @@ def fam_poll(tier, outdir):
     if tier == "thorough":
         consts.update({"Timeouts": "{0, 1, 3}", "Masks": "{2, 10, 15, 0, 31}", "MaxSrc": 3, "MaxPolls": 2})
     cfg = os.path.join(outdir, "MC_Poll.cfg")
-    write_cfg(cfg, "Spec", consts, ["TypeOK", "LifeChild", "PollBounded"], export_stride=7 if tier == "quick" else 1)
+    write_cfg(cfg, "Spec", consts, ["TypeOK", "LifeChild", "PollBounded"], export_stride=10 if tier == "quick" else 1)
     res = run_tlc_export("poll", "MC_Poll", cfg, outdir, tier, asan_stride=16 if tier == "quick" else 32, tlc_workers=10,
                          stride=1)
     sc = dict(consts); sc.update({"MaxTime": 6, "MaxCalls": 12, "MaxPolls": 6, "MaxOut": 4, "Timeouts": "{0, 1, 3}", "Masks": "{2, 10, 15, 0, 31}", "MaxSrc": 3})
@@ -580,7 +580,7 @@ def fam_drain(tier, outdir):
     if tier == "thorough":
         consts.update({"MaxCalls": 5, "MaxOut": 4, "MaxTime": 2, "SinkFails": "{1, 2, 3, 4}", "DlOpts": "{0, 1, 2}"})
     cfg = os.path.join(outdir, "MC_Drain.cfg")
-    write_cfg(cfg, "Spec", consts, ["TypeOK", "LifeChild", "Conservation"], export_stride=4 if tier == "quick" else 1)
+    write_cfg(cfg, "Spec", consts, ["TypeOK", "LifeChild", "Conservation"], export_stride=5 if tier == "quick" else 1)
     return run_tlc_export("drain", "MC_Stream", cfg, outdir, tier, asan_stride=8, tlc_workers=10,
                           stride=1)
 
